@@ -11,7 +11,8 @@
 //! a side the receiver does not listen to blocks for ever; the generator simulates the coarse
 //! protocol and emits `q` for such batches (Terminates of a side that ended its iteration while the
 //! other side has not). `q` is also used to put the first batch of the next round into the channel
-//! before the current round ends ("fast loop": no receive timeout at the round boundary).
+//! before the current round ends ("fast loop": no receive timeout at the round boundary), and — in a small
+//! share of cases — to make a `select` over both channels find both non-empty (unspecified choice).
 use std::sync::atomic::{AtomicUsize, Ordering};
 use std::sync::{mpsc, Arc, Mutex};
 use std::time::Duration;
@@ -292,6 +293,13 @@ fn gen(rng: &mut Rng, i: usize) -> Case {
                 lines.push((!q, s, r, e));
             }
         }
+    }
+
+    // a small share of cases where a `select` over BOTH channels finds both non-empty (which one it takes is
+    // unspecified; the driver looks for the resolution the implementation took): at the very start, when
+    // both sides are listened to, leave the first batch queued if the second one goes to the other side
+    if g.rng.chance(1, 10) && lines.len() >= 2 && lines[0].0 && lines[1].0 && lines[0].1 != lines[1].1 {
+        lines[0].0 = false;
     }
 
     // rare malformed variants: a pull that blocks, a counter underflow
